@@ -8,7 +8,7 @@ from . import ggen
 from .gworld import World, snapshot, derived
 
 PROPS = ('C01', 'C05', 'C10', 'C11', 'C15', 'C16')
-MUTATORS_NOT_JUDGED_C15 = ('new_task', 'new_wbs', 'clone', 'subtree', 'acquire', 'observe')
+MUTATORS_NOT_JUDGED_C15 = ('new_task', 'new_wbs', 'clone', 'subtree', 'acquire', 'observe', 'w_setattr')
 
 
 def named(op, world):
